@@ -28,6 +28,7 @@ const (
 	probeNondetReference
 	probeErrCallback
 	probeVisitorAbort
+	probeC11OpFault
 )
 
 var probeNames = map[int]string{
@@ -35,7 +36,7 @@ var probeNames = map[int]string{
 	probeWriterErr: "writer_error_fired", probeWriterShort: "writer_short_write_fired", probeWriterPanic: "writer_panic_fired",
 	probeDumperPanicTaken: "dumper_write_error_panic_taken", probePrinterContinued: "printer_continued_after_write_error",
 	probeBlockBoundary: "pool_block_boundary_crossed", probeNondetReference: "nondeterministic_reference",
-	probeErrCallback: "error_callback_fired", probeVisitorAbort: "visitor_abort_fired",
+	probeErrCallback: "error_callback_fired", probeVisitorAbort: "visitor_abort_fired", probeC11OpFault: "operation_aborted_by_writer_fault_or_visitor_abort",
 }
 
 var (
